@@ -1,8 +1,8 @@
 package real
 
 import (
-	"reflect"
 	"fmt"
+	"reflect"
 	"sort"
 	"strings"
 
